@@ -22,6 +22,7 @@ import (
 	"io"
 	"io/ioutil"
 	"log"
+	"math"
 	"net"
 	"net/http"
 	"net/textproto"
@@ -379,6 +380,9 @@ func parseBlock(c *casketfile.Dispenser, u *staticUpstream, hasSrv bool) error {
 		}
 		if n < 1 {
 			return c.Err("max_fails must be at least 1")
+		}
+		if n > math.MaxInt32 {
+			return c.Err("max_fails must be at most 2147483647")
 		}
 		u.MaxFails = int32(n)
 	case "try_duration":
